@@ -22,7 +22,8 @@ Vocabulary (definitions in Proofs/Morphism*.lean, namespace `DSymVerif.Mor`):
   `Connected a`     every chamber 1..size is reachable from chamber 1
   `IsMor a b g`     g commutes with every operation and preserves every degree on 1..|a|
   `InRange a b g`   g maps 1..|a| into 1..|b|
-  `OpClosed s p`, `DegResp s p`   p (a class function) is a congruence / respects degrees
+  `OpClosed s c`, `DegResp s c`   the class function c : Nat → Nat is a congruence / respects degrees
+  `Part`, `p.find`                the model's class table of a `Partition<usize>` and its class function
 All four structural hypotheses hold for the model's view of every D-symbol whose stored table
 is a complete family of involutions (`view_hypotheses`), and `Connected` is what the property
 quantifies over.
@@ -173,7 +174,7 @@ theorem fold_congruence (s : MV) (hr : OpRange s) (hc : Complete s s.dim) (p0 q 
     (d e : Nat) (hd1 : 1 ≤ d) (hd2 : d ≤ s.size) (he1 : 1 ≤ e) (he2 : e ≤ s.size)
     (h : fold s p0 d e = .ok q) :
     (∀ x y, p0 x = p0 y → q x = q y) ∧ q d = q e ∧
-    (OpClosed s p0 → OpClosed s q) ∧ (DegResp s p0 → DegResp s q) :=
+    (OpClosed s p0.find → OpClosed s q.find) ∧ (DegResp s p0.find → DegResp s q.find) :=
   fold_congruence' s hr hc p0 q d e hd1 hd2 he1 he2 h
 
 example : (fold ex2 Part.new 1 2).isOk = true := by decide
@@ -188,7 +189,7 @@ example : ∃ q, fold ex2 Part.new 1 2 = .ok q ∧ q 1 = q 2 := by
 
 /-- … and it is the least such partition: it lies below every operation-closed partition that
     contains p0 and the pair -/
-theorem fold_least (s : MV) (hr : OpRange s) (p0 q c : Part) (d e : Nat)
+theorem fold_least (s : MV) (hr : OpRange s) (p0 q : Part) (c : Nat → Nat) (d e : Nat)
     (hd1 : 1 ≤ d) (hd2 : d ≤ s.size) (he1 : 1 ≤ e) (he2 : e ≤ s.size)
     (hcc : OpClosed s c) (hc0 : ∀ x y, p0 x = p0 y → c x = c y) (hcde : c d = c e)
     (h : fold s p0 d e = .ok q) : ∀ x y, q x = q y → c x = c y :=
@@ -197,14 +198,14 @@ theorem fold_least (s : MV) (hr : OpRange s) (p0 q c : Part) (d e : Nat)
 /-- `fold` answers `Some` exactly when some degree-respecting operation-closed partition
     contains p0 and the pair (p0 itself being one); it never panics -/
 theorem fold_some_iff (s : MV) (hr : OpRange s) (hc : Complete s s.dim) (p0 : Part)
-    (hp0 : OpClosed s p0) (hp0d : DegResp s p0) (d e : Nat)
+    (hp0 : OpClosed s p0.find) (hp0d : DegResp s p0.find) (d e : Nat)
     (hd1 : 1 ≤ d) (hd2 : d ≤ s.size) (he1 : 1 ≤ e) (he2 : e ≤ s.size) :
     (∃ q, fold s p0 d e = .ok q) ↔
-      ∃ c : Part, OpClosed s c ∧ DegResp s c ∧ (∀ x y, p0 x = p0 y → c x = c y) ∧ c d = c e := by
+      ∃ c : Nat → Nat, OpClosed s c ∧ DegResp s c ∧ (∀ x y, p0 x = p0 y → c x = c y) ∧ c d = c e := by
   constructor
   · rintro ⟨q, hq⟩
     have r := fold_congruence' s hr hc p0 q d e hd1 hd2 he1 he2 hq
-    exact ⟨q, r.2.2.1 hp0, r.2.2.2 hp0d, r.1, r.2.1⟩
+    exact ⟨q.find, r.2.2.1 hp0, r.2.2.2 hp0d, r.1, r.2.1⟩
   · rintro ⟨c, hcc, hcd, hc0, hcde⟩
     have ne := fold_ne_err s hr p0 c d e hd1 hd2 he1 he2 hcc hcd hc0 hcde
     have np := fold_no_panic s hr p0 d e hd1 hd2 he1 he2
@@ -219,7 +220,7 @@ theorem fold_some_iff (s : MV) (hr : OpRange s) (hc : Complete s s.dim) (p0 : Pa
     partition puts chamber 1 into one class with another chamber -/
 theorem is_minimal_iff (s : MV) (hr : OpRange s) (hc : Complete s s.dim) (h1 : 1 ≤ s.size) :
     ∃ b, isMinimal s = .ok b ∧
-      (b = true ↔ ¬ ∃ d c, 2 ≤ d ∧ d ≤ s.size ∧ OpClosed s c ∧ DegResp s c ∧ c 1 = c d) := by
+      (b = true ↔ ¬ ∃ (d : Nat) (c : Nat → Nat), 2 ≤ d ∧ d ≤ s.size ∧ OpClosed s c ∧ DegResp s c ∧ c 1 = c d) := by
   obtain ⟨b, hb⟩ := isMinimal_total s hr h1
   exact ⟨b, hb, isMinimal_spec s hr hc h1 b hb⟩
 
@@ -233,7 +234,7 @@ example : isMinimal d3 = .ok true := by decide
 def is_minimal_global_statement : Prop :=
   ∀ s : MV, OpRange s → Complete s s.dim → Invol s → Connected s → 1 ≤ s.size →
     (isMinimal s = .ok true ↔
-      ∀ c : Part, OpClosed s c → DegResp s c →
+      ∀ c : Nat → Nat, OpClosed s c → DegResp s c →
         ∀ x y, 1 ≤ x → x ≤ s.size → 1 ≤ y → y ≤ s.size → c x = c y → x = y)
 
 /-- `minimal_image` is a quotient of its argument that has no proper quotient -/
@@ -242,7 +243,7 @@ def minimal_image_statement : Prop :=
     minimalImage ds = .ok r →
     (∃ g, IsMor (ofSym ds) (ofSym r) g ∧ InRange (ofSym ds) (ofSym r) g ∧
       ∀ d, 1 ≤ d → d ≤ r.size → ∃ x, 1 ≤ x ∧ x ≤ ds.size ∧ g x = d) ∧
-    (∀ c : Part, OpClosed (ofSym r) c → DegResp (ofSym r) c →
+    (∀ c : Nat → Nat, OpClosed (ofSym r) c → DegResp (ofSym r) c →
       ∀ x y, 1 ≤ x → x ≤ r.size → 1 ≤ y → y ≤ r.size → c x = c y → x = y)
 
 /-- a morphism between connected symbols induces an isomorphism of their minimal images -/
